@@ -31,6 +31,7 @@ type caseRun struct {
 	SemNote string
 	FullWhy string
 	FullDone bool
+	FlagDiffs []cmpr.Diff // disagreements between the plain run and the same run under -dry -log -print
 }
 
 type semViol struct{ Method, Sig, Detail string }
@@ -93,6 +94,25 @@ func runStream(seed int64, n int, opt gen.Options, mk func(i int) *gen.Case, eac
 				if b, err := os.ReadFile(dst); err == nil {
 					cr.Impl.Output, cr.Impl.HasOut = string(b), true
 				}
+				if c.Index%4 == 1 && !res.TimedOut && !res.Panicked {
+					// the same input under -dry -log -print (Cli.v: -log is inert but for the log file, -dry
+					// writes nothing, -print prints exactly the code): same status, same diagnostics on
+					// stderr, the code on stdout, the output file untouched
+					flags := []string{"-dry", "-log", "-print", filepath.Base(src)}
+					res2 := tool.Run(filepath.Dir(src), flags, nil, 0)
+					if res2.Status != res.Status {
+						cr.FlagDiffs = append(cr.FlagDiffs, cmpr.Diff{What: "flags -dry -log -print: exit status differs from the plain run", Model: fmt.Sprint(res.Status), Impl: fmt.Sprint(res2.Status)})
+					}
+					if res2.Stderr != res.Stderr {
+						cr.FlagDiffs = append(cr.FlagDiffs, cmpr.Diff{What: "flags -dry -log -print: stderr (diagnostics, warnings) differs from the plain run", Model: trunc(res.Stderr, 800), Impl: trunc(res2.Stderr, 800)})
+					}
+					if res.Status == 0 && cr.Impl.HasOut && res2.Stdout != cr.Impl.Output {
+						cr.FlagDiffs = append(cr.FlagDiffs, cmpr.Diff{What: "flags -dry -log -print: stdout is not the code the plain run wrote", Model: trunc(cr.Impl.Output, 800), Impl: trunc(res2.Stdout, 800)})
+					}
+					if b, err := os.ReadFile(dst); (err == nil) != cr.Impl.HasOut || (err == nil && string(b) != cr.Impl.Output) {
+						cr.FlagDiffs = append(cr.FlagDiffs, cmpr.Diff{What: "flags -dry -log -print: the dry run changed the output file"})
+					}
+				}
 				if streamPost != nil {
 					streamPost(cr)
 				}
@@ -117,7 +137,7 @@ func runStream(seed int64, n int, opt gen.Options, mk func(i int) *gen.Case, eac
 		}
 		for k, j := range idx {
 			runs[j].Model = cmpr.DecodeModel(res[k])
-			runs[j].Diffs = cmpr.Compare(runs[j].Impl, runs[j].Model)
+			runs[j].Diffs = append(cmpr.Compare(runs[j].Impl, runs[j].Model), runs[j].FlagDiffs...)
 		}
 		// whole-file correspondence: model's comment surgery + cut + content vs the bytes written
 		var wg2 sync.WaitGroup
